@@ -1424,9 +1424,10 @@ func (fr *Frame) loopHead(st *State, li *loopInfo) {
 			vc.assume(st, vc.wellTyped(st, fr.getLocal(st, a)))
 		}
 	}
+	li.headSt = st.clone()
 }
 
-func (fr *Frame) loopBack(st *State, li *loopInfo) {
+func (fr *Frame) loopBack(st *State, li *loopInfo, from *ssa.BasicBlock) {
 	vc := fr.vc
 	ls := fr.loopSpec(li)
 	li.backs++
@@ -1442,6 +1443,13 @@ func (fr *Frame) loopBack(st *State, li *loopInfo) {
 	for _, inv := range ls.Invariants {
 		name := fmt.Sprintf("%s/loop%d/invariant[%s]/preserve%s", vc.fnKey, li.ord, inv.Label, suffix)
 		vc.oblige(st, name, "invariant-preserve", env.evalBool(inv.Expr), inv.Text)
+	}
+	// per-iteration postconditions: $head(e) is e at the start of this iteration
+	env.headSt = li.headSt
+	env.block = from // the locals of the body are in scope at the back edge
+	for _, sc := range ls.Steps {
+		name := fmt.Sprintf("%s/loop%d/step[%s]/preserve%s", vc.fnKey, li.ord, sc.Label, suffix)
+		vc.oblige(st, name, "loop-step", env.evalBool(sc.Expr), sc.Text)
 	}
 	if fr.contract != nil && fr.contract.HasMod {
 		fenv := fr.specEnv(fr.entry, fr.entry)
